@@ -125,7 +125,7 @@ def decide_cli(idx, seed0):
         exc, log, writes = gc.call_main(rg, argv)
         files = sc_.listing()
         if exc is not None or len(files) != 1:
-            res.update(verdict="violated", what="generator main() raised %r or did not write one file (%s)" % (exc, files), case={"cli": p})
+            res.update(verdict="violated", what="generator main() raised %r or did not write one file (%s)" % (exc, files), case={"cli": p, "idx": idx, "seed": seed0})
             return res
         gamesd = cr.read_dict_from_file(files[0])
     moves, rewards, loose = rg.gen_rnd_board(p["seed"], p["length"], p["width"], p["p_loose"], p["max_reward"], p["force_down"])
@@ -142,7 +142,7 @@ def decide_cli(idx, seed0):
             problems.append({"variant": var, "problem": "game %s written by main() is not bisimilar to the board's rules with the probabilities given on the command line" % var.upper(),
                              "path": info.get("path")})
     if problems:
-        res.update(verdict="violated", what="%s; path %s" % (problems[0]["problem"], str(problems[0]["path"])[:300]), witness=problems, case={"cli": p})
+        res.update(verdict="violated", what="%s; path %s" % (problems[0]["problem"], str(problems[0]["path"])[:300]), witness=problems, case={"cli": p, "idx": idx, "seed": seed0})
     if idx % 30 == 0:
         res["sample"] = {"argv": argv, "bisimilar_ABC": not problems}
     return res
@@ -196,7 +196,7 @@ def finish(agg):
 def replay(case):
     monitors.install()
     if "cli" in case:
-        return {"verdict": "inconclusive", "what": "CLI case: rerun the generator with the recorded parameters", "case": case}
+        return decide_cli(case["idx"], case["seed"])
     return decide_board(0, "REPLAY", case["moves"], case["rewards"], case["loose"], *case["probs"], manual=case.get("manual", False))
 
 
